@@ -452,14 +452,27 @@ def run_miller_sym(name, ph, xyz, shape, tag, record=True):
         return
     if len(set(ocls)) != len(ocls):
         # explained by the double rounding (vector rounded to 10 decimals, images rounded again)?
+        # the orbit keys as the library computes them (its own outer product, so that not even the last
+        # bit differs): images of the returned (already rounded) vectors, rounded to 10 decimals, sorted
+        _v2 = pg.outer(Vector3d(np.array(out))).flatten().reshape(len(out), pg.size).data.round(10) + 0.0
+
         def okey(v):
-            o = np.einsum("gij,j->gi", mats, np.round(np.asarray(v), 10)).round(10) + 0.0
+            k = next(i for i in range(len(out)) if v is out[i])
+            o = _v2[k]
             return o[np.lexsort(o.T)]
         why = ":rounding-threshold"
         for a in range(len(out)):
             for b in range(a + 1, len(out)):
-                if ocls[a] == ocls[b] and np.max(np.abs(okey(out[a]) - okey(out[b]))) > 2.5e-10:
-                    why = ""
+                if ocls[a] == ocls[b]:
+                    # distance between the two rounded orbits AS SETS (a one-step difference also permutes the
+                    # lexicographic order of the rows): every row of one has a row of the other within dk
+                    ka, kb = okey(out[a]), okey(out[b])
+                    dd = np.max(np.abs(ka[:, None, :] - kb[None, :, :]), axis=2)
+                    dk = max(np.max(np.min(dd, axis=1)), np.max(np.min(dd, axis=0)))
+                    # explained only if the two rounded orbit keys DIFFER, by one rounding step: with equal
+                    # keys the documented procedure merges the two vectors
+                    if dk > 2.5e-10 or dk == 0:
+                        why = ""
         fail(f"{pre}:distinct{why}", "Miller.unique(use_symmetry=True) returns two symmetrically equivalent vectors"
              + (" (their 10-decimal rounded orbits differ by one rounding step)" if why else ""), rep)
         return
